@@ -199,6 +199,28 @@ inline void checkC01Object(Ctx &c, ISpline &s, const Problem &e, const std::stri
         }
     }
     {
+        // the same knots through the hinted evaluator, visited in an arbitrary order with one persistent hint
+        Rng hr(hashProblem(e) ^ 0x5bd1e995ULL);
+        std::vector<int> ord(N);
+        for (int i = 0; i < N; ++i)
+            ord[i] = i;
+        hr.shuffle(ord);
+        int hint = (int)(hr.u64() % (uint64_t)(N + 2)) - 1;
+        bool okh = true;
+        for (int i : ord)
+        {
+            VectorXd a = s.trajEvalHint(cum[i], &hint, 0), b = s.trajEval(cum[i], 0);
+            okh = okh && bitEqualMat(a, b) && hint == i;
+            if (i + 1 < N)
+            {
+                double tm = cum[i] + 0.5 * (cum[i + 1] - cum[i]);
+                VectorXd a1 = s.trajEvalHint(tm, &hint, 1), b1 = s.trajEval(tm, 1);
+                okh = okh && bitEqualMat(a1, b1);
+            }
+        }
+        c.require("C01.knots_via_hinted_evaluate", okh, keyJson(e, "interpolation", 0), tag);
+    }
+    {
         // end knot through the global evaluator: last piece at local time cum[N]-cum[N-1]
         VectorXd gN = s.trajEval(cum[N], 0);
         VectorXd lN = s.segEval(N - 1, cum[N] - cum[N - 1], 0);
@@ -273,7 +295,9 @@ inline void runC01(Ctx &c)
                 continue;
             Rng r = c.beginCase(cl.name, idx);
             int pat = 0, dc = 0;
-            Problem p = genProblem(r, cl.order, cl.dim, cl.N, GenOpts(), &pat, &dc);
+            GenOpts gopt;
+            gopt.huge_t0_prob = 0.06;
+            Problem p = genProblem(r, cl.order, cl.dim, cl.N, gopt, &pat, &dc);
             int entry = r.range(0, 3); // 0 ctor-dur 1 ctor-pts 2 update-dur 3 update-pts
             bool defaultBC = r.coin(0.08);
             if (defaultBC)
@@ -453,6 +477,7 @@ inline void runC02(Ctx &c)
             GenOpts go;
             // walk the duration patterns systematically so that every first/last placement is visited in every cell
             go.dur_pattern = (int)(idx % kNumDurPatterns);
+            go.huge_t0_prob = 0.08;
             Problem p = genProblem(r, cl.order, cl.dim, cl.N, go, &pat, &dc);
             c.dump = [&]() { return JObj().str("dur_pattern", kDurPatternNames[pat]).str("data_class", kDataClassNames[dc]).raw("problem", dumpProblem(p)).done(); };
             if (problemNontrivial(p))
@@ -622,7 +647,9 @@ inline Problem genWideDurations(Rng &r, int order, int dim, int N)
 inline void runC04(Ctx &c)
 {
     const bool thorough = c.a.tier == "thorough";
-    auto cells = splineCellList(c, thorough ? nListThorough() : nListQuick());
+    static const std::vector<int> nq4{1, 2, 3, 4, 5, 6, 7, 8, 9, 10, 33, 64, 65, 100};
+    static const std::vector<int> nt4{1, 2, 3, 4, 5, 6, 7, 8, 9, 10, 16, 31, 32, 33, 63, 64, 65, 100, 128, 200};
+    auto cells = splineCellList(c, thorough ? nt4 : nq4);
     const uint64_t per = c.count(thorough ? 800 : 100);
     for (auto &cl : cells)
         for (uint64_t idx = 0; idx < per; ++idx)
@@ -630,7 +657,9 @@ inline void runC04(Ctx &c)
             if (!c.mine(idx))
                 continue;
             Rng r = c.beginCase(cl.name, idx);
-            Problem p = (idx % 3 == 0) ? genProblem(r, cl.order, cl.dim, cl.N) : genWideDurations(r, cl.order, cl.dim, cl.N);
+            GenOpts g4;
+            g4.huge_t0_prob = 0.06;
+            Problem p = (idx % 3 == 0) ? genProblem(r, cl.order, cl.dim, cl.N, g4) : genWideDurations(r, cl.order, cl.dim, cl.N);
             c.dump = [&]() { return dumpProblem(p); };
             bool viaPts = false;
             auto s = makeSplineHist(c, r, p, viaPts);
